@@ -25,6 +25,8 @@ KINDS = [
     ('create_loop_dup_within', True), ('create_loop_null', False), ('create_loop_reserved', False),
     ('add_item_dup', False), ('add_item_invalid', False), ('set_value_invalid', False),
     ('add_packet_foreign', True), ('add_packet_empty', False), ('add_packet_second_scalar', False),
+    # a packet refused by a scalar loop that holds no packet yet (block b2: the loop is created for the purpose)
+    ('add_packet_unknown_empty_scalars', True),
     ('set_category_empty', False), ('set_category_of_scalar', False), ('set_category_of_scalar_null', False),
     ('remove_item_missing', False), ('stale_get_packets', False), ('stale_destroy', False),
     ('stale_set_category', False), ('stale_add_packet', False), ('stale_add_item', False),
@@ -80,8 +82,9 @@ class Sys(History):
         rcs, commit = CM.op_create_block(m, 'b2')
         rc, h2 = L.create_block(p, 'b2')
         ok(rc, 'create_block')
-        commit()
-        L.container_free(h2)
+        self.b2 = commit()
+        self.b2h = h2
+        self.le = None
         for nm, tx in (('_s1', 'one'), ('_s2', 'two')):
             pv = ('char', tx, True)
             rcs, commit = CM.op_set_value(self.b, nm, pv)
@@ -156,6 +159,19 @@ class Sys(History):
         names[position_index(n, pos)] = bad
         return names
 
+    def prepare(self, kind):
+        """state the failing call needs, made before any enclosing iterator opens its transaction"""
+        L = self.L
+        if kind == 'add_packet_unknown_empty_scalars':
+            enames = ['_e1', '_e2', '_e3', '_e4', '_e5']
+            rcs, commit = CM.op_create_loop(self.b2, '', enames)
+            rc, lh = L.create_loop(self.b2h, '', enames)
+            if rc != CIF_OK or not commit:
+                raise Mismatch('fixture:create_loop(scalars):%d' % rc, 'creating the scalar loop of the empty block -> %d' % rc)
+            self.le = commit()
+            self.leh = lh
+            self.check_state(self.ci, 'fixture', 'fixture(scalars of b2)')
+
     def failing_call(self, kind, n, pos, in_tx):
         """performs the failing call; returns (label, rc, acceptable rcs when not in a transaction)"""
         L = self.L
@@ -206,6 +222,19 @@ class Sys(History):
             rc = L.loop_add_packet(lh, pk)
             L.packet_free(pk)
             L.loop_free(lh)
+            return 'cif_loop_add_packet', rc, {CIF_WRONG_LOOP}
+        if kind == 'add_packet_unknown_empty_scalars':
+            enames = [n for n, _ in self.le.names]
+            lh = self.leh
+            names = enames[:n]
+            names[position_index(n, pos)] = '_zz'
+            rc, pk = L.packet_create(names)
+            for nm in names:
+                v = self.mk(('char', 'refused', True))
+                L.packet_set(pk, nm, v)
+                L.value_free(v)
+            rc = L.loop_add_packet(lh, pk)
+            L.packet_free(pk)
             return 'cif_loop_add_packet', rc, {CIF_WRONG_LOOP}
         if kind.startswith('itr_'):
             lh = self.loop_handle('_a1')
@@ -347,6 +376,26 @@ class Sys(History):
             raise Mismatch('model:probe-iterator:0:%d/%d' % (rc2, rc3), 'iterator probe next=%d close=%d' % (rc2, rc3))
         self.check_tx(ci, 'probe:cif_pktitr_close')
         L.loop_free(lh)
+        if self.le is not None:
+            # the scalar loop that refused a packet takes its one packet now, and the block a further scalar
+            items = [(n, ('char', 'e' + n, True)) for n, _ in self.le.names]
+            rcs, commit = CM.op_add_packet(self.b2, self.le, items)
+            rc, pk = L.packet_create([n for n, _ in items])
+            for n, pv in items:
+                v = self.mk(pv)
+                L.packet_set(pk, n, v)
+                L.value_free(v)
+            rc = L.loop_add_packet(self.leh, pk)
+            L.packet_free(pk)
+            self.after_call(ci, 'probe:cif_loop_add_packet(scalars)', rc, rcs)
+            commit()
+            pv = ('char', 'probe', False)
+            rcs, commit = CM.op_set_value(self.b2, '_e6', pv)
+            v = self.mk(pv)
+            rc = L.set_value(self.b2h, '_e6', v)
+            L.value_free(v)
+            self.after_call(ci, 'probe:cif_container_set_value(new scalar)', rc, rcs)
+            commit()
         self.check_state(ci, 'state-after-probes', 'probe sequence')
 
 
@@ -359,6 +408,7 @@ def run_sys_case(ctx, idx, case):
     info = dict(index=idx, kind=kind, context=ctxname, n=n, position=pos)
     try:
         h.build_fixture(idx)
+        h.prepare(kind)
         it = None
         lh = None
         if ctxname != 'plain':
@@ -402,6 +452,10 @@ def run_sys_case(ctx, idx, case):
         try:
             if getattr(h, 'bh', None):
                 L.container_free(h.bh)
+            if getattr(h, 'b2h', None):
+                L.container_free(h.b2h)
+            if getattr(h, 'leh', None):
+                L.loop_free(h.leh)
             h.destroy_all()
         except Exception:
             pass
